@@ -1212,6 +1212,47 @@ pub fn gen_literal(rng: &mut Rng, holes: bool, standoff: bool) -> Sx {
     l(vec![sid, l(ress), l(sets), l(anns)])
 }
 
+/// give the first annotation (or data item) that has a public identifier one of the form "!A5" / "!K3" / "!D0"
+fn reserve_an_id(rng: &mut Rng, lit: Sx) -> Sx {
+    // (numbers beyond the handles in use, or building the store would already take them for existing items)
+    let ids = ["!A99", "!K97", "!D98", "!A40", "!R96"];
+    let new_id = text(ids[rng.below(ids.len())]);
+    let mut parts: Vec<Sx> = lit.list().to_vec();
+    let mut anns: Vec<Sx> = parts[3].list().to_vec();
+    for x in anns.iter_mut() {
+        if let Sx::L(fields) = x {
+            if let Sx::L(_) = fields[0] {
+                let mut f = fields.clone();
+                f[0] = new_id.clone();
+                *x = l(f);
+                parts[3] = l(anns);
+                return l(parts);
+            }
+        }
+    }
+    let mut sets: Vec<Sx> = parts[2].list().to_vec();
+    for st in sets.iter_mut() {
+        if let Sx::L(sf) = st {
+            let mut data: Vec<Sx> = sf[3].list().to_vec();
+            for d in data.iter_mut() {
+                if let Sx::L(df) = d {
+                    if let Sx::L(_) = df[0] {
+                        let mut f = df.clone();
+                        f[0] = new_id.clone();
+                        *d = l(f);
+                        let mut sf2 = sf.clone();
+                        sf2[3] = l(data);
+                        *st = l(sf2);
+                        parts[2] = l(sets);
+                        return l(parts);
+                    }
+                }
+            }
+        }
+    }
+    l(parts)
+}
+
 fn emit(ctx: &Ctx, out: &mut Out, req: Sx) {
     let (i, o, nt) = ctx.exec(&req);
     for c in ctx.last_cov.borrow().iter() {
@@ -1241,7 +1282,12 @@ pub fn generate(out: &mut Out, tier: &str, seed: u64) {
     // 2. random literal stores with arbitrary identifiers, texts and values
     let n_lit = if thorough { 40000 } else { 1200 };
     for i in 0..n_lit {
-        let lit = gen_literal(&mut rng, i % 3 != 0, i % 2 == 0);
+        let mut lit = gen_literal(&mut rng, i % 3 != 0, i % 2 == 0);
+        if i % 40 == 7 {
+            // a public identifier in the reserved syntax of temporary identifiers (known class)
+            lit = reserve_an_id(&mut rng, lit);
+            out.count("reserved_identifier");
+        }
         emit(&ctx, out, l(vec![a(1), lit]));
     }
     // 3. save, modify, save again: every kind of modification x every stand-off arrangement
